@@ -622,17 +622,38 @@ def scope_move(model, rep, sites, rule='SCOPE-MOVE'):
                 node_p is not None and vtxt == node_p + '.body':
               rep.hold(rule, site, {'same_function': handler_kind}, nontrivial=False)
               continue
-            # only constants / names reach this call
-            atomic = False
-            for pol, tst in formula.path_condition(s.fi.node, s.call):
-              if pol == 'T' and isinstance(tst, ast.Call) and core.dotted(tst.func) == \
-                  'isinstance' and len(tst.args) == 2 and tpl.xnorm(
-                      s.fi, tst.args[0], s.call) == vtxt:
-                kinds = tst.args[1].elts if isinstance(tst.args[1], ast.Tuple) else [tst.args[1]]
-                if all(core.dotted(k) in ('ast.Constant', 'ast.Name') for k in kinds):
-                  atomic = True
+            # path by path: the value is generated, or a user expression that a
+            # test on the way has shown to be a constant / a plain name
+            from sa import pathsym
+
+            def _atomic_on(conds, v):
+              vt = core.norm(v)
+              for pol, tst in conds:
+                while isinstance(tst, ast.UnaryOp) and isinstance(tst.op, ast.Not):
+                  tst, pol = tst.operand, ('F' if pol == 'T' else 'T')
+                if pol == 'T' and isinstance(tst, ast.Call) and core.dotted(tst.func) == \
+                    'isinstance' and len(tst.args) == 2 and core.norm(tst.args[0]) == vt:
+                  kinds = tst.args[1].elts if isinstance(tst.args[1], ast.Tuple) \
+                      else [tst.args[1]]
+                  if all(core.dotted(k) in ('ast.Constant', 'ast.Name') for k in kinds):
+                    return True
+              return False
+            class _Visited(ast.NodeTransformer):
+              # the visited node is the node (same kind, same fields)
+              def visit_Call(self, c):
+                self.generic_visit(c)
+                if core.norm(c.func) in ('self.generic_visit', 'self.visit') and \
+                    len(c.args) == 1 and not c.keywords:
+                  return c.args[0]
+                return c
+            paths = [([(pol, _Visited().visit(t_)) for pol, t_ in conds],
+                      _Visited().visit(v))
+                     for conds, v in pathsym.path_values(s.fi.node, s.call, val)]
+            atomic = bool(paths) and all(
+                tpl.origin(model, s.fi, v, s.call) <= {'const', 'generated', 'namer'} or
+                _atomic_on(conds, v) for conds, v in paths)
             if atomic:
-              rep.hold(rule, site, {'only': 'constants or names'})
+              rep.hold(rule, site, {'only': 'constants or names', 'paths': len(paths)})
               continue
             # a def whose nonlocal declarations cover the expression's own scope
             declared = False
